@@ -319,6 +319,11 @@ def execute(plan, ctx):
                 cls = build.hist_class(ndim)
                 kw = {"frequencies": arr, "errors2": arr, "keep_missed": hs["keep_missed"],
                       "dtype": np.dtype(hs["dtype"])}
+                if ndim > 1:
+                    # ... and one caller-owned missed count for all replicas
+                    if not caller_arrays or caller_arrays[0].shape != (1,):
+                        caller_arrays.insert(0, np.zeros(1, dtype=np.dtype(hs["dtype"])))
+                    kw["missed"] = caller_arrays[0]
                 ok_, res_ = attempt(lambda: cls(axes[0], **kw) if ndim == 1 else cls(axes, **kw))
                 if ok_:
                     R.h = res_
